@@ -163,6 +163,11 @@ func execOp(line string) {
 	case "swrite":
 		emit(line, safely(func() string { return implSwrite(t) }))
 
+	case "evcheck", "fancheck", "closecheck", "stallcheck", "hbcheck", "srcheck", "lifecheck":
+		// observation-carrying ops: the observation was made when the scenario ran; on replay the stored observation
+		// is re-judged by the model (the scenario itself is re-run by the generator, see DESIGN.md §5)
+		emit(line, "ok")
+
 	case "etext":
 		emit(line, safely(func() string { return implEtext(t) }))
 
